@@ -34,6 +34,7 @@ type runRes struct {
 	root          string
 	panic         string
 	panicAtRevert bool
+	logSize       string
 	dirty         map[string]bool   // dirty set right before the final root
 	empty         map[string]string // Empty(addr) right before the final root
 	exist         map[string]string
@@ -99,6 +100,9 @@ func runOnce(header, prefix, region, suffix []string, withRegion, withQueries bo
 		res.empty[a] = ex("empty " + a)
 	}
 	in := ex("internals")
+	if i := strings.Index(in, " L"); i >= 0 {
+		res.logSize = strings.Fields(in[i+2:])[0]
+	}
 	if i := strings.Index(in, " D["); i >= 0 {
 		rest := in[i+3:]
 		if j := strings.IndexByte(rest, ']'); j >= 0 && j > 0 {
@@ -333,6 +337,13 @@ func search(args map[string]string) {
 			}
 		}
 		if bad {
+			continue
+		}
+		if A.logSize != B.logSize {
+			v := base
+			v.Key, v.Desc = "query-logsize-not-restored", "the log counter (Index of the next emitted log) differs after the revert"
+			v.A, v.B = A.logSize, B.logSize
+			emit(v)
 			continue
 		}
 		if (A.content == B.content) != (A.root == B.root) {
